@@ -45,6 +45,46 @@ func (t *Tap) Bytes(fromA bool) []byte {
 	return out
 }
 
+// Ordered returns a copy of all writes in the order they happened.
+func (t *Tap) Ordered() []Write {
+	t.mu.Lock()
+	defer t.mu.Unlock()
+	return append([]Write(nil), t.Writes...)
+}
+
+// OrderedMessages reassembles the cleartext messages of both directions and
+// tells, for each, its position in the global order of completion: msgs[0] are
+// the messages written by end A, msgs[1] those of end B, pos likewise.
+func (t *Tap) OrderedMessages() (msgs [2][][]byte, pos [2][]int) {
+	var buf [2][]byte
+	var cur [2][]byte
+	n := 0
+	for _, w := range t.Ordered() {
+		d := 1
+		if w.FromA {
+			d = 0
+		}
+		buf[d] = append(buf[d], w.Data...)
+		for {
+			fr, rest := ParseFrames(buf[d])
+			if len(fr) == 0 {
+				break
+			}
+			buf[d] = rest
+			for _, f := range fr {
+				cur[d] = append(cur[d], f.Payload...)
+				if f.End != 0 {
+					msgs[d] = append(msgs[d], cur[d])
+					pos[d] = append(pos[d], n)
+					n++
+					cur[d] = nil
+				}
+			}
+		}
+	}
+	return
+}
+
 // Len is the number of bytes written so far by one end.
 func (t *Tap) Len(fromA bool) int { return len(t.Bytes(fromA)) }
 
